@@ -52,6 +52,14 @@ def run(tier, seed, drv):
                                      "components": [dev("in1", {"i": ["external", "x"]}), dev("per", cb={"kind": "period", "p": P})]},
                                     dev("sink", {"i": ["sys", "y"]})],
                      "n_ticks": 5, "stims": [{"real": off, "comp": "per"}, {"real": off + 2 * P + 1_000_003, "comp": "per"}]})
+    # a second inner interrupt a few loop iterations after the first, i.e. while the inner tick caused by the
+    # first is running: it must reach the master (served within the bound), at depth 1 and 2
+    for k in (range(1, 28) if tier == "quick" else range(1, 45)):
+        scns.append({"components": [{"name": "O", "kind": "sys", "inputs": {}, "expose": {"y": ["S", "y"]}, "components": [
+            {"name": "S", "kind": "sys", "inputs": {}, "expose": {"y": ["A", "o"]}, "components": [
+                dev("A", cb={"kind": "period", "p": P}), dev("C"), dev("D")]}]}, dev("B", {"i": ["O", "y"]})],
+            "n_ticks": 8, "noop_ticks_possible": True,
+            "stims": [{"real": 30_000_007, "comp": "C"}, {"real": 30_000_007, "yields": k, "comp": "D"}, {"real": 230_000_000, "comp": "C"}]})
     for i, scn in enumerate(scns):
         if not S.systems(scn):
             continue
@@ -99,6 +107,16 @@ def run(tier, seed, drv):
                 res.count("mid-tick-interrupt (served-check only)")
                 continue
             oa, ob = model.observations(rn["trace"]), model.observations(rf["trace"])
+            if scn.get("noop_ticks_possible"):
+                # the two runs stop after the same NUMBER of master ticks, and one of them may contain ticks in which
+                # no device is updated: compare up to the simulation time both have passed
+                def last(r):
+                    t_ = monitors.master_tid(r)
+                    ts = [e["time"] for e in r["trace"].of("t-done") if e["tid"] == t_]
+                    return ts[-1] if ts else -1
+                h = min(last(rn), last(rf))
+                oa = {d: [o for o in v if o[0] < h] for d, v in oa.items()}
+                ob = {d: [o for o in v if o[0] < h] for d, v in ob.items()}
             for d in sorted(set(oa) | set(ob)):
                 if oa.get(d, []) != ob.get(d, []):
                     x, y = oa.get(d, []), ob.get(d, [])
